@@ -485,6 +485,13 @@ def main_check(P, argv):
                            "extraction (ExtrOcamlBasic only, no Extract Constant) + OCaml 4.13.1", "ocaml/glue.ml + ocaml/%s_driver.ml" % low,
                            "harness/%s.* linked against /repo sources built now with g++ 12.2 (+ASan/UBSan)" % prop,
                            "checks/%s.py generators and canonicalisers" % prop] + ["stdlib axiom: " + x for x in axioms]
+    if a.tier == "thorough" and ok_mk and not a.replay and os.environ.get("VERIF_COQCHK", "1") == "1":
+        # independent re-check of the compiled theorems and everything they depend on
+        with Lock("coq"):
+            rc, out = sh(["timeout", "1500", "coqchk", "-o", "-silent", "-Q", ".", "CppUVerif", "CppUVerif.Properties_%s" % prop], cwd=COQ)
+        cov["coqchk"] = {"exit": rc, "output_tail": out[-3000:]}
+        if rc != 0:
+            broken.append(("coqchk", "coqchk rejected Properties_%s: %s" % (prop, out[-1500:])))
     if theorems and n_dis != len(theorems):
         broken.append(("axioms", "a property theorem depends on non-stdlib axioms: %s" % theorems))
 
